@@ -153,10 +153,11 @@ class TargetAgent(Agent):
         Args:
             ephemeris (:class:`._EphemerisMixin`): data object to update this TargetAgent's state with
         """
-        self.eci_state = array(ephemeris.eci)
+        # [NOTE]: set the time first, the state setter derives the Earth-fixed state at the current epoch
         self._time = JulianDate(ephemeris.julian_date).convertToScenarioTime(
             self.julian_date_start,
         )
+        self.eci_state = array(ephemeris.eci)
 
     @property
     def eci_state(self) -> ndarray:
